@@ -45,6 +45,13 @@ Definition table : list (string * (sx -> sx)) := [
   ("pc.write_variable", fun a =>
       sx_str (write_variable (uw_of (nth_sx 0 a)) (un_bool (nth_sx 1 a)) (un_str (nth_sx 2 a)) (un_str (nth_sx 3 a))
                 (un_flags (nth_sx 4 a))));
+  (* the variables section of a written file: [uw installed dirs srcdir depth], dirs = [[name frag] ...] (installed form),
+     srcdir / depth of the .pc directory below the build directory (-uninstalled form) *)
+  ("pc.variables", fun a =>
+      sx_str (if un_bool (nth_sx 1 a)
+              then installed_vars (uw_of (nth_sx 0 a))
+                     (map (fun p => (un_str (nth_sx 0 p), un_frag (nth_sx 1 p))) (un_list (nth_sx 2 a)))
+              else uninstalled_vars (uw_of (nth_sx 0 a)) (un_str (nth_sx 3 a)) (un_nat (nth_sx 4 a))));
   ("pc.write_requires", fun a => sx_str (write_requires (un_str (nth_sx 0 a)) (map un_simple (un_list (nth_sx 1 a)))));
   ("pc.field", fun a => sx_opt (sx_list sx_str) (pc_field (un_vars (nth_sx 0 a)) (un_str (nth_sx 1 a))));
   ("pc.denote", fun a => sx_list sx_str (map (flag_denote (un_vars (nth_sx 0 a))) (un_flags (nth_sx 1 a))));
